@@ -8,7 +8,7 @@
 (*           feats   : Seq([type, loc, pay, xpay, aux : Seq(loc), dna]),     *)
 (*           protos  : Seq([type, loc, pay, xpay, core, num, dna]),          *)
 (*           subs    : Seq([type, loc, pay, xpay, num, dna]),                *)
-(*           cands   : Seq([type, loc, pay, xpay, core, num, dna,            *)
+(*           cands   : Seq([type, loc, pay, xpay, num, dna,                  *)
 (*                          protos : Seq(index into protos)]),               *)
 (*           regions : Seq([type, loc, pay, xpay, num, dna,                  *)
 (*                          cands, subs : Seq(index)])]                      *)
@@ -25,16 +25,23 @@ EXTENDS RecordSM
 Rng(q) == {q[i] : i \in DOMAIN q}
 
 (* two locations are the same when they cover the same bases in the same order on the same strand; a part cut
-   into abutting pieces is the same location *)
-SameLoc(a, b) == a = b \/ (a.strand = b.strand /\ FwdWalk(a) = FwdWalk(b))
-CanonLoc(loc) == [strand |-> loc.strand, walk |-> FwdWalk(loc)]
+   into abutting pieces is the same location.  Canonical form: forward-ordered parts with abutting neighbours joined
+   (recursion over parts, never over bases: real records have locations of hundreds of bases) *)
+RECURSIVE JoinFrom(_, _, _)
+JoinFrom(parts, i, acc) ==
+    IF i > Len(parts) THEN acc
+    ELSE IF Len(acc) > 0 /\ acc[Len(acc)][2] = parts[i][1]
+         THEN JoinFrom(parts, i + 1, [acc EXCEPT ![Len(acc)] = <<acc[Len(acc)][1], parts[i][2]>>])
+         ELSE JoinFrom(parts, i + 1, Append(acc, parts[i]))
+CanonLoc(loc) == [strand |-> loc.strand, parts |-> JoinFrom(Fwd(loc), 1, <<>>)]
+SameLoc(a, b) == a = b \/ CanonLoc(a) = CanonLoc(b)
 CanonLocs(q) == [i \in DOMAIN q |-> CanonLoc(q[i])]
 
 (* --- C10: a round trip is a stuttering step on the abstract record ------------------------------------- *)
 FeatKey(f) == [type |-> f.type, loc |-> CanonLoc(f.loc), pay |-> f.pay, aux |-> CanonLocs(f.aux)]
 ProtoKey(p) == [loc |-> CanonLoc(p.loc), core |-> CanonLoc(p.core), pay |-> p.pay]
 SubKey(x) == [loc |-> CanonLoc(x.loc), pay |-> x.pay]
-CandKey(rec, c) == [loc |-> CanonLoc(c.loc), core |-> CanonLoc(c.core), pay |-> c.pay,
+CandKey(rec, c) == [loc |-> CanonLoc(c.loc), pay |-> c.pay,
                     members |-> {ProtoKey(rec.protos[k]) : k \in Rng(c.protos) \cap DOMAIN rec.protos}]
 RegionKey(rec, r) == [loc |-> CanonLoc(r.loc), pay |-> r.pay,
                       cands |-> {CandKey(rec, rec.cands[k]) : k \in Rng(r.cands) \cap DOMAIN rec.cands},
@@ -83,9 +90,11 @@ RegStart(rloc) == OuterStart(rloc)
 RegLen(rloc) == Size(rloc)
 (* a two-part span [s,L)+[0,e) with e = s covers the whole ring *)
 Inside(rloc, loc) == Contains(rloc, loc)
-(* the same bases re-expressed on the extract: rotate by -start on the ring of the parent, which lands every base of
-   a contained location in 0..n-1 and joins what the origin had cut *)
-ShiftBy(L, loc, k) == Shift([L |-> L, circ |-> TRUE], loc, k)
+(* the same bases re-expressed on the extract: rotate by -start on the ring of the parent.  A part of a location inside
+   the region lies in one piece of the region, so it moves as a whole and lands in 0..n-1; what the origin had cut
+   becomes abutting parts, which CanonLoc joins.  (Persist_MC checks that this is Ring!Shift on every generated case.) *)
+MovePart(L, p, k) == LET s == (p[1] + k) % L IN <<s, s + (p[2] - p[1])>>
+ShiftBy(L, loc, k) == Loc([i \in DOMAIN loc.parts |-> MovePart(L, loc.parts[i], k)], loc.strand)
 ShiftIn(L, rloc, loc) == ShiftBy(L, loc, 0 - RegStart(rloc))
 ExtractSeq(seq, rloc) ==
     LET L == Len(seq)
@@ -102,9 +111,9 @@ XProto(L, rloc, p) == [pay |-> p.xpay, loc |-> CanonLoc(ShiftIn(L, rloc, p.loc))
 OProto(p) == [pay |-> p.xpay, loc |-> CanonLoc(p.loc), core |-> CanonLoc(p.core)]
 XSub(L, rloc, x) == [pay |-> x.xpay, loc |-> CanonLoc(ShiftIn(L, rloc, x.loc))]
 OSub(x) == [pay |-> x.xpay, loc |-> CanonLoc(x.loc)]
-XCand(rec, rloc, c) == [pay |-> c.xpay, loc |-> CanonLoc(ShiftIn(rec.L, rloc, c.loc)), core |-> CanonLoc(ShiftIn(rec.L, rloc, c.core)),
+XCand(rec, rloc, c) == [pay |-> c.xpay, loc |-> CanonLoc(ShiftIn(rec.L, rloc, c.loc)),
                         members |-> {XProto(rec.L, rloc, rec.protos[k]) : k \in Rng(c.protos)}]
-OCand(rec, c) == [pay |-> c.xpay, loc |-> CanonLoc(c.loc), core |-> CanonLoc(c.core),
+OCand(rec, c) == [pay |-> c.xpay, loc |-> CanonLoc(c.loc),
                   members |-> {OProto(rec.protos[k]) : k \in Rng(c.protos) \cap DOMAIN rec.protos}]
 
 (* what the extract of region number r of rec has to contain *)
@@ -189,7 +198,6 @@ AbsRec(uni, s) ==
          subs |-> [i \in DOMAIN sOrder |-> [type |-> "subregion", loc |-> uni.areas[sOrder[i]].extent, pay |-> sOrder[i], xpay |-> sOrder[i],
                                             num |-> i, dna |-> ""]],
          cands |-> [i \in DOMAIN cOrder |-> [type |-> "cand_cluster", loc |-> cOrder[i].loc,
-                                             core |-> Cover(RU(uni), {uni.areas[m].core : m \in cOrder[i].members}),
                                              pay |-> 0, xpay |-> 0, num |-> i, dna |-> "",
                                              protos |-> SortedBy({IndexOf(pOrder, m) : m \in cOrder[i].members},
                                                                  [k \in {IndexOf(pOrder, m) : m \in cOrder[i].members} |-> <<k, 0, 0>>])]],
@@ -216,7 +224,7 @@ ModelExtract(rec, r, sign) ==
          feats |-> [i \in DOMAIN keepF |-> [keepF[i] EXCEPT !.loc = move(@)]],
          protos |-> [i \in DOMAIN keepP |-> [keepP[i] EXCEPT !.loc = move(@), !.core = move(@), !.num = i]],
          subs |-> [i \in DOMAIN keepS |-> [keepS[i] EXCEPT !.loc = move(@), !.num = i]],
-         cands |-> [i \in DOMAIN keepC |-> [keepC[i] EXCEPT !.loc = move(@), !.core = move(@), !.num = i,
+         cands |-> [i \in DOMAIN keepC |-> [keepC[i] EXCEPT !.loc = move(@), !.num = i,
                                                               !.protos = [k \in DOMAIN @ |-> newP(@[k])]]],
          regions |-> << [reg EXCEPT !.loc = Simple(0, n, 1), !.num = 1,
                                     !.cands = [k \in DOMAIN @ |-> newC(@[k])], !.subs = [k \in DOMAIN @ |-> newS(@[k])]] >>]
@@ -237,6 +245,13 @@ BasesPreserved(rec, r, e) ==
         /\ {<<back(p.loc), back(p.core)>> : p \in Rng(e.protos)}
              = {<<Bases(p.loc), Bases(p.core)>> : p \in {p \in Rng(rec.protos) : Inside(rec.regions[r].loc, p.loc)}}
         /\ \A f \in Rng(e.feats) : Size(f.loc) = Cardinality(back(f.loc))
+(* the part-wise move used above is the rotation of Ring.tla (the operator C04 validates offset_location against) *)
+MoveIsRingShift(rec, r) ==
+    LET rloc == rec.regions[r].loc
+        R == [L |-> rec.L, circ |-> TRUE]
+        locs == {f.loc : f \in {f \in Rng(rec.feats) : Inside(rloc, f.loc)}} \cup {p.loc : p \in {p \in Rng(rec.protos) : Inside(rloc, p.loc)}}
+                \cup {p.core : p \in {p \in Rng(rec.protos) : Inside(rloc, p.loc)}} \cup {c.loc : c \in {c \in Rng(rec.cands) : Inside(rloc, c.loc)}}
+    IN  \A loc \in locs : Size(loc) = rec.L \/ CanonLoc(ShiftIn(rec.L, rloc, loc)) = CanonLoc(Shift(R, loc, 0 - RegStart(rloc)))
 (* the areas of the extract form one connected component, i.e. rebuilding regions on it gives exactly one *)
 OneComponent(e) ==
     LET nodes == {<<"c", i>> : i \in DOMAIN e.cands} \cup {<<"s", i>> : i \in DOMAIN e.subs}
